@@ -144,6 +144,8 @@ def draw_value(rng, dt, nulls=True):
         r = rng.random()
         if r < 0.04:
             return rng.choice([TWO53, -TWO53, TWO53 - 1])      # the boundary of exact int64 <-> float64 round trips
+        if r < 0.052:                                          # beyond it: finding F-Z (births round these)
+            return rng.choice([TWO53 + 1, -(TWO53 + 3), TWO53 + 2, 2 ** 60 + 1, 3 * 2 ** 54 + 5, -(2 ** 62) + 127])
         return rng.randint(-3, 9)
     if dt == "float":
         if nulls and rng.random() < 0.1:
@@ -452,9 +454,18 @@ class Run:
                 return []
             return rng.sample(pool, rng.randint(1, min(len(pool), 4)))
 
-        def wrong_dt(dt, family=False):
+        def wrong_dt(dt, family=False, col=None):
             if family:          # while simulants are being added: stay inside what the model transcribes (F-L)
-                return rng.choice([d for d in ("bool", "int", "float", "obj") if d != dt])
+                opts = [d for d in ("bool", "int", "float", "obj") if d != dt]
+                if dt in ("int", "float"):
+                    opts += ["str"]                                  # strings do not go into a numeric array
+                if dt == "time":
+                    opts += ["timens", "timens"]                     # the unit is cast
+                if dt == "timens":
+                    opts += ["time", "time"]
+                if dt == "obj" and col in tcols and all(x[0] in "NBT" for x in tcols[col][1]):
+                    opts += ["time", "timens"]                       # refused while a bool is left, cast otherwise
+                return rng.choice(opts)
             return rng.choice([d for d in ("bool", "int", "float", "str", "time", "obj", "timens") if d != dt])
 
         if kind == "lit":
@@ -505,13 +516,13 @@ class Run:
             cols = some_cols(vin) or ["zz"]
             bad = rng.choice(cols)
             fam = adding
-            dts = {bad: wrong_dt(cur_dt(bad), fam)}
+            dts = {bad: wrong_dt(cur_dt(bad), fam, bad)}
             if rng.random() < 0.25 and len(cols) > 1:
                 other = rng.choice([c for c in cols if c != bad])
-                dts[other] = wrong_dt(cur_dt(other), fam)
+                dts[other] = wrong_dt(cur_dt(other), fam, other)
             rows = some_rows(range(n)) if not adding else (new_labels if rng.random() < 0.7 else some_rows(new_labels))
             if adding:
-                cols = [c for c in cols if cur_dt(c) in ("bool", "int", "float", "obj", "str", "time")]
+                cols = [c for c in cols if cur_dt(c) in ("bool", "int", "float", "obj", "str", "time", "timens")]
                 cols = cols or ["zz"]
                 vals = {c: [draw_value(rng, dts.get(c, cur_dt(c)), nulls=False) for _ in rows] for c in cols}
                 u, can = frame(rows, cols, dts=dts, vals=vals)
@@ -751,7 +762,8 @@ class Run:
                 for l in range(n):
                     e = supplied[c].get(l, bc[l])
                     if not (ac[l] == e or ac[l] in allsup[c].get(l, []) or (cast and veq(ac[l], e))):
-                        big = cast and ud == self.home.get(c, bd) == "int" and e[0] in "IF" and abs(e[1]) > TWO53
+                        mag = abs(e[1]) if e[0] == "I" else (abs(e[1]) // 2 if e[0] == "F" else 0)
+                        big = cast and ud == self.home.get(c, bd) == "int" and mag > TWO53
                         return self.fail(f"{label}: cell [{l},{c}] is {ac[l]}, expected {e} "
                                          f"({'supplied' if l in supplied[c] else 'not addressed'})", fl=cast and not big, fs=big)
 
@@ -893,6 +905,8 @@ class Run:
             self.fail(f"after the creation the manager flags (creating, adding) are {rf}, expected {self.flags}")
         self.check_held()
         self.tags.add(f"create{min(count, 4)}" + ("_initial" if initial else ""))
+        if count == 0 and not initial:
+            self.tags.add("zero_birth@" + (getattr(self, "cur_event", None) or "outside"))
         self.trace.append(("create", {"count": count, "user": exp_user, "time": exp_time, "step": now_s,
                                       "scripts": cr["scripts"], "code": code, "labels": labels,
                                       "log": cr["log"], "after": self.tobs(A)}))
@@ -918,7 +932,11 @@ class Run:
         for op in self.inside.get(ev, []):
             if op["k"] != "step":
                 self.tags.add("inside:" + ev)
-                self.run_op(op)
+                self.cur_event = ev
+                try:
+                    self.run_op(op)
+                finally:
+                    self.cur_event = None
 
     # ---- rendering ----
     def coq_act(self, rec):
@@ -1151,8 +1169,8 @@ def gen_program(rng, emphasis):
             return [steady_action(), action("fill", view=home)]
         return []
 
-    def creation():
-        count = rng.choice([0, 1, 1, 2, 2, 3, 4, 5])
+    def creation(zero=None):
+        count = rng.choice([0, 0, 1, 1, 2, 2, 3, 4, 5]) if zero is None else (0 if rng.random() < zero else rng.randint(1, 3))
         user = rng.choice([None, 0, 10, 11, 12, 17])
         return {"k": "create", "count": count, "user": user, "scripts": {str(j): birth_script(j) for j in range(comps)}}
 
@@ -1161,6 +1179,9 @@ def gen_program(rng, emphasis):
         pc = 0.12 if emphasis == "update" else 0.45
         if r < pc:
             return creation()
+        if emphasis == "create" and depth == 0 and r > 0.9:
+            # a birth of (mostly) ZERO simulants from every listener of the step
+            return {"k": "step", "inside": {ev: [creation(zero=0.7)] for ev in EVENTS}}
         if r < pc + (0.06 if emphasis == "update" else 0.15) and depth == 0:
             inside = {}
             for ev in EVENTS:
@@ -1185,7 +1206,8 @@ def run_program(case):
     msg = "; ".join(run.msgs[:3])
     obs = {"oracle": run.msgs[:5], "ops": len(run.trace), "updates": run.n_updates, "fl_class": bool(run.fl)}
     ok = run.ok and not run.fl and not run.fs
-    res = Result(ok=ok, msg=msg, coq=coq, key=_key(case) if nontrivial else None, obs=obs, tags=tuple(sorted(run.tags)))
+    tags = set(run.tags) | ({"finding:F-L"} if run.fl else set()) | ({"finding:F-Z"} if run.fs else set())
+    res = Result(ok=ok, msg=msg, coq=coq, key=_key(case) if nontrivial else None, obs=obs, tags=tuple(sorted(tags)))
     res.fl_only = bool(run.fl) and run.ok and not run.fs     # the only oracle failures are of the F-L class
     res.fs_only = bool(run.fs) and run.ok                    # ... of the big-int class (possibly followed by F-L casts)
     return res
@@ -1200,7 +1222,7 @@ def finding_of(case, res):
     """F-L: the failing operation is an update issued while simulants are being added whose dtype differs from the
     column's dtype at that moment (accepted and cast over the whole column) - nothing else is attributed to it."""
     if getattr(res, "fs_only", False):
-        return "F-S"            # not a listed finding (yet): reported as a violation if such a case is ever run
+        return "F-Z"            # births round int64 values beyond 2^53 (open known finding; same root cause as F-L)
     return "F-L" if getattr(res, "fl_only", False) else None
 
 
@@ -1297,7 +1319,7 @@ def corpus_creations():
 
 
 def corpus_bigint():
-    """the new finding (not listed): run only when asked for (VERIF_POP_BIGINT=1) or once it is an open known finding"""
+    """finding F-Z (open): an existing int64 beyond 2^53 is rounded by a birth; so is a newborn's supplied value"""
     cols = [[2, "int", 0]]
     return [_base([{"k": "create", "count": 1, "user": None, "scripts": {"0": [_a("fill", 0)]}}], n0=1, cols=cols,
                   views=[[[2, 0], 0]], init={"0": [_lit(0, "all", [[2, "int", [2 ** 53 + 1]]])]})]
@@ -1320,3 +1342,173 @@ def second_hash_seed(run, prop):
                            text=True, env=env, cwd=VERIF)
     run.obligation(f"{prop} quick check under PYTHONHASHSEED=7 (fresh interpreter) exits 0", p.returncode == 0,
                    (p.stdout + p.stderr)[-1500:])
+
+
+# ----------------------------------------------------------------------------------------------------------------
+# stream `edge` (C13, python oracle only): creations requested where the model has no counterpart - from a
+# post_setup / simulation_end listener (the life cycle refuses the manager's own update there: only the outcome CLASS is
+# recorded) and from inside an initializer (a nested creation).  Checked: labels handed out are the consecutive fresh
+# ones, rows are never lost or relabelled, no cell of an existing simulant changes its value.
+# ----------------------------------------------------------------------------------------------------------------
+def gen_edge(rng):
+    return {"where": rng.choice(["post_setup", "simulation_end", "simulation_end", "nested_birth", "nested_birth", "nested_initial"]),
+            "n0": rng.choice([0, 1, 2, 3, 5]), "count": rng.choice([0, 0, 1, 2, 3]), "inner": rng.choice([0, 1, 2]),
+            "dtype": rng.choice(["bool", "int", "float", "str", "time"]), "steps": rng.randint(0, 2), "seed": rng.getrandbits(32)}
+
+
+def run_edge(case):
+    import pandas as pd
+    from vivarium import Component
+    from vivarium.interface.interactive import InteractiveContext
+    rng = random.Random(case["seed"])
+    where, dt = case["where"], case["dtype"]
+    msgs, tags, log = [], set(), []
+    state = {"armed": False, "depth": 0}
+
+    class Edge(Component):
+        @property
+        def columns_created(self):
+            return ["c1"]
+
+        def setup(self, builder):
+            self.creator = builder.population.get_simulant_creator()
+
+        def attempt(self, tag, count):
+            try:
+                r = self.creator(count, {"tag": 1})
+                log.append((tag, "ok", [int(x) for x in r]))
+            except Exception as e:
+                from vivarium.framework.lifecycle import LifeCycleError
+                log.append((tag, "exc", "LifeCycleError" if isinstance(e, LifeCycleError) else type(e).__name__))
+
+        def on_initialize_simulants(self, pop_data):
+            log.append(("init", [int(x) for x in pop_data.index]))
+            nest = (where == "nested_initial" and state["depth"] == 0 and not state["armed"]) or \
+                   (where == "nested_birth" and state["armed"] and state["depth"] == 0)
+            if nest:
+                state["depth"] += 1
+                self.attempt("inner", case["inner"])
+                state["depth"] -= 1
+            try:
+                self.population_view.update(mk_series([draw_value(rng, dt, nulls=False) for _ in pop_data.index],
+                                                      [int(x) for x in pop_data.index], dt, "c1"))
+            except Exception:
+                pass
+
+        def on_post_setup(self, event):
+            if where == "post_setup":
+                self.attempt("post_setup", case["count"])
+
+        def on_simulation_end(self, event):
+            if where == "simulation_end":
+                self.attempt("simulation_end", case["count"])
+
+    boot.reset_contexts()
+    probe = Edge()
+    sim = InteractiveContext(components=[probe], configuration={"population": {"population_size": int(case["n0"])}},
+                             setup=False, logging_verbosity=0)
+    boot.quiet_logging()
+
+    def fail(m):
+        msgs.append(m)
+
+    def table():
+        return snap(sim.get_population(untracked=True))
+
+    def old_rows_kept(B, A, what):
+        n = len(B["labels"])
+        if A["labels"][:n] != B["labels"] or A["labels"] != list(range(len(A["labels"]))):
+            return fail(f"{what}: rows were {B['labels']}, now {A['labels']}")
+        for c, (bd, bc) in B["cols"].items():
+            if c not in A["cols"]:
+                return fail(f"{what}: column {c} disappeared")
+            ac = A["cols"][c][1]
+            for l in range(n):
+                if not veq(ac[l], bc[l]):
+                    return fail(f"{what}: existing simulant {l}, column {c}: {bc[l]} -> {ac[l]}")
+
+    setup_exc = None
+    try:
+        sim.setup()
+    except Exception as e:
+        setup_exc = type(e).__name__
+    if where == "post_setup":
+        ent = [x for x in log if x[0] == "post_setup"]
+        if len(ent) != 1:
+            fail(f"post_setup listener ran {len(ent)} times")
+        elif ent[0][1] == "ok":
+            if ent[0][2] != list(range(case["count"])):
+                fail(f"creation of {case['count']} in post_setup returned {ent[0][2]}")
+            tags.add("edge:post_setup:accepted")
+        else:
+            tags.add("edge:post_setup:" + ent[0][2])
+    elif setup_exc is not None and where != "nested_initial":
+        fail(f"setup failed: {setup_exc}")
+    if where == "nested_initial":
+        A = table() if setup_exc is None else None
+        inner = [x for x in log if x[0] == "inner"]
+        n0 = case["n0"]
+        if inner and inner[0][1] == "ok":
+            tags.add("edge:nested_initial:accepted")
+            if inner[0][2] != list(range(n0, n0 + case["inner"])):
+                fail(f"nested creation of {case['inner']} during the initial creation of {n0} returned {inner[0][2]}")
+            if A is not None and A["labels"] != list(range(n0 + case["inner"])):
+                fail(f"rows after the nested initial creation: {A['labels']}")
+        elif inner:
+            tags.add("edge:nested_initial:" + inner[0][2])
+        if setup_exc:
+            tags.add("edge:nested_initial:setup_" + setup_exc)
+    if where in ("simulation_end", "nested_birth") and setup_exc is None:
+        try:
+            for _ in range(max(case["steps"], 1 if where == "simulation_end" else 0)):
+                sim.step()                       # (simulation_end can only follow a completed step)
+            B = table()
+            n = len(B["labels"])
+            if where == "simulation_end":
+                sim.finalize()
+                A = table()
+                ent = [x for x in log if x[0] == "simulation_end"]
+                if len(ent) != 1:
+                    fail(f"simulation_end listener ran {len(ent)} times")
+                elif ent[0][1] == "ok":
+                    tags.add("edge:simulation_end:accepted")
+                    if ent[0][2] != list(range(n, n + case["count"])) or len(A["labels"]) != n + case["count"]:
+                        fail(f"creation of {case['count']} at simulation_end with {n} present returned {ent[0][2]}, rows {A['labels']}")
+                else:
+                    tags.add("edge:simulation_end:" + ent[0][2])
+                old_rows_kept(B, A, "creation requested at simulation_end")
+            else:
+                state["armed"] = True
+                del log[:]
+                ret, exc = None, None
+                try:
+                    ret = [int(x) for x in probe.creator(case["count"], {"tag": 2})]
+                except Exception as e:
+                    exc = type(e).__name__
+                A = table()
+                inner = [x for x in log if x[0] == "inner"]
+                if exc is not None:
+                    tags.add("edge:nested_birth:outer_" + exc)
+                else:
+                    if ret != list(range(n, n + case["count"])):
+                        fail(f"outer creation of {case['count']} with {n} present returned {ret}")
+                    k = n + case["count"]
+                    if inner and inner[0][1] == "ok":
+                        tags.add("edge:nested_birth:accepted")
+                        if inner[0][2] != list(range(k, k + case["inner"])):
+                            fail(f"nested creation of {case['inner']} with {k} present returned {inner[0][2]}")
+                        k += case["inner"]
+                    elif inner:
+                        tags.add("edge:nested_birth:" + inner[0][2])
+                    if A["labels"] != list(range(k)):
+                        fail(f"rows after the nested creation: {A['labels']}, expected 0..{k - 1}")
+                    inits = [x[1] for x in log if x[0] == "init"]
+                    exp = [list(range(n, n + case["count"]))] + ([list(range(n + case["count"], k))] if inner and inner[0][1] == "ok" else [])
+                    if inits != exp:
+                        fail(f"initializer calls saw {inits}, expected {exp}")
+                old_rows_kept(B, A, "nested creation")
+        except Exception as e:
+            fail(f"harness exception: {type(e).__name__}: {e}")
+    tags.add("edge:" + where)
+    return Result(ok=not msgs, msg="; ".join(msgs[:3]), coq=None, key=_key(case), obs={"log": log[:12], "oracle": msgs[:3]},
+                  tags=tuple(sorted(tags)))
